@@ -193,6 +193,34 @@ def doc_oracle(case, impl):
     return None
 
 
+def repeated_world(seed, i):
+    """Torrents in which several pieces of one file are byte-identical (same SHA-1, different offsets)."""
+    import worldgen
+    rng = vlib.rng_for(seed, "C06repeat/%d" % i)
+    w = worldgen.World()
+    w.put_dir(w.export)
+    w.put_dir((b"scan0",))
+    w.scans = [(b"scan0",)]
+    L = rng.choice([2, 3, 4])
+    A, B = worldgen.rand_content(rng, L), worldgen.rand_content(rng, L)
+    shapes = [A + B + A, bytes(3 * L) + A, A + bytes(2 * L) + A[:rng.randint(1, L)], A * rng.choice([2, 3, 4]), B + A + A + B[:1]]
+    ts = [worldgen.TorrentSpec(b"rep%d" % i, L, [worldgen.TFile([], rng.choice(shapes))], True)]
+    head = worldgen.rand_content(rng, rng.randint(0, L))
+    ts.append(worldgen.TorrentSpec(b"mrep%d" % i, L, [worldgen.TFile([b"h"], head), worldgen.TFile([b"d", b"body"], rng.choice(shapes)), worldgen.TFile([b"t"], worldgen.rand_content(rng, rng.randint(1, 3)))], False))
+    w.torrents = sorted(ts, key=lambda t: t.info_hash)
+    w.presented = list(range(len(w.torrents)))
+    k = 0
+    for t in w.torrents:
+        for f in t.files:
+            w.put_file((b"scan0", b"c%d" % k), f.content)
+            k += 1
+            if rng.random() < 0.4 and f.length:
+                # a stale export file: one of the repeated pieces is already there, the others are not
+                w.put_file(tuple(list(w.export) + t.rel_target(f)), f.content[:L] + bytes(f.length - min(L, f.length)))
+    w.threads = rng.choice([1, 2, 3])
+    return w
+
+
 def correspondence(ctx):
     hc = hashcount_cases(ctx)
     hci = vlib.run_sharded(ctx["harness"], "load", hc)
@@ -238,6 +266,19 @@ def correspondence(ctx):
                              "how_to_replay": "./check C06 --replay <this file>"})
         else:
             broken.append({"what": "LayoutModel.layout and Pieces::from_torrent differ on a case where the implementation still satisfies the interval specification", **d})
+    # where the layout is consumed: the work list of real runs (orchestrator::convert_pieces_to_work) against the model's
+    # [work_of], on torrents whose content repeats - equal pieces at different offsets of one file, zero runs, A-B-A -
+    # so that two pieces of a torrent carry the same hash; every byte must still belong to exactly one work item
+    import runprops, oracles
+    rep = [(runprops.Scenario("repeat", ctx["seed"], i), repeated_world(ctx["seed"], i)) for i in range(24 if ctx["tier"] == "quick" else 200)]
+    for r in runprops.run_scenarios(ctx, rep):
+        dist["runs_with_repeated_pieces"] = dist.get("runs_with_repeated_pieces", 0) + 1
+        cx = oracles.Ctx(r["w"], r["rr"], r["ce"])
+        bad = (None if r["rr"].result == "ok" else "the run did not return Ok: %s" % r["rr"].result) or oracles.c02(cx) or oracles.c01(cx)
+        if bad and len(findings) < 5:
+            findings.append({"scenario": r["sc"].ident(), "violated_clause": bad, "model_verdict": r["verdict"][:300], "world": runprops.describe_world(r["w"])})
+        elif not bad and not r["verdict"].startswith("ok") and len(broken) < 10:
+            broken.append({"what": "run with repeated pieces is not a behaviour of the model (work list / events): " + r["verdict"][:500], "scenario": r["sc"].ident()})
     nontrivial = set()
     for c in cases:
         k = c.split(" ", 1)[0]
